@@ -33,7 +33,8 @@ func main() {
 		"length-field fix-up); every byte of TCB info, QE identity (signed bodies and the JSON files), their hex signatures and the PEM chain (bit flips, replacement, deletion, "+
 		"insertion, truncation, splices, chain recombination); all combinations of the corpus' TCB infos x QE identities x certificate chains as foreign collateral; a time grid "+
 		"(every certificate NotBefore/NotAfter, issueDate, nextUpdate, issueDate+V days for V in %v; each -1s,-1ns,0,+1ns,+1s) plus random instants; named policy settings and random "+
-		"combinations; platform SVN / FMSPC / QE report enumeration through TCBBundle.Verify; node.CapabilityTEE.Verify cases (all must reject). Oracle: acceptance => independent "+
+		"combinations; platform SVN / FMSPC / QE report enumeration through TCBBundle.Verify; node.CapabilityTEE.Verify cases (all must reject); node policy derivation (consensus default PCS policies x runtime constraint shapes through the exported "+
+		"ApplyDefaultConstraints + quote.Quote.Verify sequence of node/sgx.go: acceptance must agree with the runtime's own PCS policy, else the consensus default). Oracle: acceptance => independent "+
 		"reference predicate holds for exactly these inputs AND returned identity/report data equal the signed ones AND the baseline's. A non-trivial case is a distinct "+
 		"(vector, input.region class, mutation kind) evaluated and rejected or neutrally accepted, a distinct (boundary, side@validity) time case, a distinct policy case, "+
 		"a distinct TCB-level case kind.", bitsPerByte, validityGrid)
@@ -125,6 +126,7 @@ func main() {
 		k.pckTime(v)
 	}
 	k.nodeLevel()
+	k.nodePolicyDerivation()
 
 	// Evidence.
 	neutral := k.neutral.ranges()
@@ -175,10 +177,11 @@ func (k *checker) replay(path string) {
 	var doc struct {
 		Signature string `json:"signature"`
 		Witness   struct {
-			Case     *caseSpec `json:"case"`
-			TCBCase  *tcbCase  `json:"tcb_case"`
-			NodeCase *nodeCase `json:"node_case"`
-			PCKCase  *pckCase  `json:"pck_case"`
+			Case      *caseSpec       `json:"case"`
+			TCBCase   *tcbCase        `json:"tcb_case"`
+			NodeCase  *nodeCase       `json:"node_case"`
+			PCKCase   *pckCase        `json:"pck_case"`
+			DerivCase *derivationCase `json:"derivation_case"`
 		} `json:"witness"`
 	}
 	if err := json.Unmarshal(raw, &doc); err != nil {
@@ -219,6 +222,9 @@ func (k *checker) replay(path string) {
 		}
 		k.evalPCKCase(doc.Witness.PCKCase)
 		fmt.Printf("REPLAY pck case done (recorded signature %s)\n", doc.Signature)
+	case doc.Witness.DerivCase != nil:
+		k.nodePolicyDerivation()
+		fmt.Printf("REPLAY node policy derivation family re-run (recorded signature %s)\n", doc.Signature)
 	case doc.Witness.NodeCase != nil:
 		k.nodeLevel()
 		fmt.Printf("REPLAY node-level cases re-run (recorded signature %s)\n", doc.Signature)
